@@ -45,7 +45,7 @@ def run(ctx):
 
 def gates(ctx, R):
     n = 0
-    b = ctx.anchor(R, M.VIS + '::visual_metric')
+    b = ctx.anchor(R, M.HELPER['visual'])
     if b is not None:
         eb = ExprBuilder(b)
         dist_calls = b.find_calls('distance::euclidean', 'distance::cosine')
@@ -264,7 +264,7 @@ def similarity(ctx, R):
         ctx.check(c is not None and c.kind == 'bin' and c.name == 'Sub' and c.args[0].const_value() in ('1.0', '1') and
                   c.args[1].strip().root == ('param', 2), R, b, 'cosine: weight = 1 - d', repr(c),
                   'Cosine distance_to_weight is %r (expected 1 - d: best-fit voting treats smaller as closer)' % c)
-    vb = ctx.anchor(R, M.VIS + '::visual_metric')
+    vb = ctx.anchor(R, M.HELPER['visual'])
     if vb is not None:
         for c in vb.find_calls(VKIND + '::distance_to_weight'):
             conds = path_conditions(vb, c.bb)
